@@ -47,6 +47,8 @@ pub enum Tamper {
     WrongKind,
     /// a multi-byte alteration (see props/multi.rs) of region 0: C3, 1: C2, 2: the x coordinate of C1, 3: everything after the prefix byte
     Multi(u8, Multi),
+    /// the same ciphertext in another encoding, offered to the raw decryptor: 0 GM/T 0009 SM2Cipher DER; 1 hex text; 2 DER with 04 prepended; 3 the other component order
+    AltEncoding(u8),
 }
 
 #[derive(Serialize, Deserialize, Hash, Debug, Clone)]
@@ -217,6 +219,18 @@ pub fn check(c: &Case) -> CaseResult {
             ct = assemble(&other, &parsed.c2, &parsed.c3, b.c1c3c2);
             class = "wrong-kind";
         }
+        Tamper::AltEncoding(kind) => {
+            let parsed = r2::parse_ciphertext(&bd.ct, b.compressed, b.c1c3c2).unwrap();
+            let (x, y) = r2::xy(&parsed.c1).unwrap();
+            let doc = crate::refimpl::der::sm2_cipher(&from_be(&x), &from_be(&y), &parsed.c3, &parsed.c2);
+            ct = match kind % 4 {
+                0 => doc,
+                1 => hex::encode(&bd.ct).into_bytes(),
+                2 => { let mut v = vec![4u8]; v.extend_from_slice(&doc); v }
+                _ => parsed.encode(b.compressed, !b.c1c3c2),
+            };
+            class = "alt-encoding";
+        }
         Tamper::Multi(region, m) => {
             let (c3lo, c2lo, c2hi) = if b.c1c3c2 { (c1len, c1len + 32, ct.len()) } else { (ct.len() - 32, c1len, ct.len() - 32) };
             let (lo, hi, name) = match region % 4 {
@@ -288,6 +302,7 @@ pub fn tamper_strategy() -> impl Strategy<Value = Tamper> {
         1 => Just(Tamper::WrongKind),
         1 => Just(Tamper::None),
         6 => (prop_oneof![3 => Just(0u8), 1 => Just(1u8), 1 => Just(2u8), 1 => Just(3u8)], multi::strategy()).prop_map(|(r, m)| Tamper::Multi(r, m)),
+        2 => (0..4u8).prop_map(Tamper::AltEncoding),
     ]
 }
 
@@ -296,7 +311,7 @@ pub fn run(ctx: &Ctx) {
         "a case is (base, tampering): the base is a ciphertext made by the *reference* encryptor (|M| 1..64, four configurations); tamperings: every single-bit flip incl. the prefix byte (exhaustive per base), \
          every truncation length, small extensions, C1 replaced by a random off-curve (x,y) with C2/C3 forged consistently through the group law of the curve y^2=x^3+ax+b' it lies on (invalid-curve attack: \
          without an on-curve check the library returns the plaintext), C1 nudged off the curve, compressed x with non-residue right-hand side, an on-curve C1 with small x encoded as x+p with consistent C2/C3, \
-         every other prefix byte, C1 re-encoded in the other form, multi-byte alterations of C3 / C2 / C1.x that preserve the xor, the sum or the multiset of the bytes or words (a folded or partial comparison of C3 accepts them), wholesale replacements of C3. Oracle: the reference decryptor (strict SEC1 decoding, on-curve check, C3 check) decides; tampered => Err, never a plaintext, never a panic. Non-trivial: a case the reference rejects.",
+         every other prefix byte, C1 re-encoded in the other form, the whole ciphertext re-encoded (SM2Cipher DER, hex text, the other component order), multi-byte alterations of C3 / C2 / C1.x that preserve the xor, the sum or the multiset of the bytes or words (a folded or partial comparison of C3 accepts them), wholesale replacements of C3. Oracle: the reference decryptor (strict SEC1 decoding, on-curve check, C3 check) decides; tampered => Err, never a plaintext, never a panic. Non-trivial: a case the reference rejects.",
     );
     ctx.assume("reference decryptor (harness/src/refimpl/sm2.rs): strict SEC1 decoding (prefix 02/03/04 matching the caller's flag, coordinates < p), on-curve check, C3 = SM3(x2||M'||y2)");
     ctx.assume("rejection is decided for the generated tamperings only");
@@ -331,6 +346,19 @@ pub fn run(ctx: &Ctx) {
             }
             v.push(Case { base: b.clone(), tamper: Tamper::None });
             v.push(Case { base: b.clone(), tamper: Tamper::WrongKind });
+            for k in 0..4u8 {
+                v.push(Case { base: b.clone(), tamper: Tamper::AltEncoding(k) });
+            }
+        }
+        v
+    }, check);
+
+    ctx.cold("cold_start_decrypt", "decrypt as the first library operation of a fresh process: untouched, bit flips in C1 / C3, a cancelling C3 alteration, an invalid-curve forgery", move || {
+        let mut v = Vec::new();
+        for b in fixed_bases(seed ^ 0xc06d, 4) {
+            for t in [Tamper::None, Tamper::FlipBit(40), Tamper::FlipBit(65 * 8 + 3), Tamper::Multi(0, Multi::XorPair(0, 8, 1)), Tamper::C1OffCurveForged(5)] {
+                v.push(Case { base: b.clone(), tamper: t });
+            }
         }
         v
     }, check);
